@@ -409,6 +409,12 @@ import json
 f = json.loads(%(failure)r)
 src = scen.ConcSource(f['model'])
 q = f['q']
+if q['stage'] == 'privescs':
+    g = genh.new_generator(1, q['O'], q['P'])
+    with genh.stream(src, cap=None) as rnd:
+        g._generate_privescs(q['PE'], 1, 1.0)
+    print(json.dumps(sorted((k, sorted((kk, str(vv)) for kk, vv in v.items())) for k, v in g.privescs.items())))
+    sys.exit(0)
 g = c14._build(src, q)
 g._generate_topology()
 if q.get('concrete_hosts'):
